@@ -12,6 +12,11 @@ R13.4 once-only load: every insertion[...] append is guarded by `not in global_s
 R13.5 release after the last reader: every deletion[...] index is last_consumer.get(name, key); last_consumer has one
       unconditional writer inside a loop over self.dependencies.items(); dependency promotion loops have no early exit
 R13.6 the two result-selection predicates are the same boolean function of (return_only_persistent, persistent)
+R13.7 the schedule is computed from the AST that is executed: ds_structure runs a FRESH analyser over its own parameter on every
+      path (statement numbers of an earlier analysis belong to the textual order, the executor counts in execution order); no
+      analysis result is parked on the AST object between calls
+R13.8 the result sink is not read-only (it rewrites Time_Period columns of the table in place before copying it out), so a table
+      is handed to fetch_result only at its scheduled release or after the last statement - never while later statements may read it
 """
 from __future__ import annotations
 
@@ -337,6 +342,81 @@ def run(rep: Report, tier: str) -> None:
     if not pl or any("statement.persistent" not in src(x.args[0]) for x in pl):
         rep.add(Finding("R13.6", "R13.6/persistent-source", ua.module.rel, ua.node.lineno, ua.qualname,
                         "DatasetSchedule.persistent must be built from statement.persistent"))
+    # ---- R13.7 ------------------------------------------------------------------------------------------
+    rep.rule("R13.7", "ds_structure analyses the AST it is given with a fresh analyser on every path; nothing cached on the AST")
+    dsf = P.func("vtlengine.AST.DAG.DAGAnalyzer.ds_structure")
+    gd = CFG(dsf.node)
+    uses = [c for c in walk_no_nested(dsf.node) if isinstance(c, ast.Call) and isinstance(c.func, ast.Attribute) and c.func.attr == "_ds_usage_analysis"]
+    rep.instance("R13.7", "fresh-analysis", nontrivial=True)
+    if len(uses) != 1 or not isinstance(uses[0].func.value, ast.Name):
+        raise AnalysisError("ds_structure: `<analyser>._ds_usage_analysis()` not found")
+    var = uses[0].func.value.id
+    param = [p_ for p_ in dsf.params if p_ not in ("cls", "self")][0]
+    defs = [n for n in walk_no_nested(dsf.node) if isinstance(n, ast.Assign) and any(isinstance(t, ast.Name) and t.id == var for t in n.targets)]
+    fresh = [d for d in defs if isinstance(d.value, ast.Call) and src(d.value.func) in ("cls", "DAGAnalyzer") and not d.value.args]
+    if len(fresh) != len(defs) or not defs:
+        bad = next((d for d in defs if d not in fresh), None)
+        rep.add(Finding("R13.7", "R13.7/fresh-analysis", dsf.module.rel, (bad or dsf.node).lineno, dsf.qualname,
+                        f"the analyser whose schedule ds_structure returns can come from `{src(bad.value) if bad is not None else '?'}` instead of a fresh analysis of the AST "
+                        f"it is given: dependencies recorded by an earlier pass are numbered in textual order, but create_dag re-orders the statements and the executor "
+                        f"counts in execution order, so tables are loaded / released at the wrong statements"))
+    else:
+        use_nodes = [x for x in gd.nodes if x.stmt is not None and any(y is uses[0] for y in ast.walk(x.stmt)) and x.kind == "stmt"]
+        vis = {x for x in gd.nodes if x.stmt is not None and x.kind == "stmt" and any(
+            isinstance(c, ast.Call) and isinstance(c.func, ast.Attribute) and c.func.attr == "visit" and src(c.func.value) == var and c.args and src(c.args[0]) == param
+            for c in ast.walk(x.stmt))}
+        pth = gd.path_avoiding(gd.entry, lambda x: x in use_nodes, lambda x: x in vis, follow_exc=False) if use_nodes else None
+        if not vis or pth is not None:
+            rep.add(Finding("R13.7", "R13.7/fresh-analysis", dsf.module.rel, dsf.node.lineno, dsf.qualname,
+                            f"there is a path through ds_structure on which `{var}.visit({param})` is not executed before the schedule is derived"))
+    ndag = 0
+    for f_ in P.iter_functions():
+        if not f_.module.name.startswith("vtlengine.AST.DAG"):
+            continue
+        params_ = set(f_.params) - {"self", "cls"}
+        for n in walk_no_nested(f_.node):
+            tgt = None
+            if isinstance(n, ast.Assign):
+                tgt = [t for t in n.targets if isinstance(t, ast.Attribute) and isinstance(t.value, ast.Name) and t.value.id in params_ and t.attr.startswith("_")
+                       and not isinstance(n.value, ast.Constant)]  # constant marker flags (e.g. `_hr_sorted = True`) carry no analysis result
+            elif isinstance(n, ast.Call) and isinstance(n.func, ast.Name) and n.func.id == "setattr" and n.args and isinstance(n.args[0], ast.Name) and n.args[0].id in params_:
+                tgt = [n]
+            ndag += 1 if isinstance(n, ast.Assign) else 0
+            if tgt:
+                rep.add(Finding("R13.7", f"R13.7/parked-on-ast/{f_.name}", f_.module.rel, n.lineno, f_.qualname,
+                                f"`{src(n)[:70]}` parks an analysis result on an object passed in by the caller: it outlives the call and is stale as soon as the AST is re-ordered or edited"))
+    rep.instance("R13.7", "nothing-parked-on-ast", nontrivial=True, sample={"assignments_scanned": ndag})
+
+    # ---- R13.8 ------------------------------------------------------------------------------------------
+    rep.rule("R13.8", "fetch_result only at the scheduled release or after the last statement")
+    stmt_loop = next((n for n in walk_no_nested(f.node) if isinstance(n, ast.For) and "enumerate(queries" in src(n.iter)), None)
+    if stmt_loop is None:
+        raise AnalysisError("execute_queries: statement loop not found")
+    nfr = 0
+    for f_ in P.iter_functions():
+        if not f_.module.name.startswith("vtlengine.duckdb_transpiler"):
+            continue
+        for c in walk_no_nested(f_.node):
+            if isinstance(c, ast.Call) and (src(c.func) == "fetch_result" or src(c.func).endswith(".fetch_result")):
+                nfr += 1
+                key = f"{f_.name}:{'in-loop' if f_ is f and any(x is c for x in ast.walk(stmt_loop)) else 'ok'}"
+                rep.instance("R13.8", f"site/{f_.name}", nontrivial=True)
+                if f_ is f and any(x is c for x in ast.walk(stmt_loop)):
+                    rep.add(Finding("R13.8", "R13.8/site/execute_queries/in-statement-loop", f_.module.rel, c.lineno, f_.qualname,
+                                    "fetch_result is called inside the statement loop, i.e. for a table that later statements may still read; fetch_result rewrites the table's "
+                                    "Time_Period columns to the output representation in place (apply_time_period_representation), so later readers see re-formatted values"))
+                elif f_.name == "cleanup_scheduled_datasets":
+                    inloop = any(isinstance(l, ast.For) and "deletion[" in src(l.iter) and any(x is c for x in ast.walk(l)) for l in walk_no_nested(f_.node))
+                    if not inloop:
+                        rep.add(Finding("R13.8", "R13.8/site/cleanup_scheduled_datasets/outside-deletion-schedule", f_.module.rel, c.lineno, f_.qualname,
+                                        "cleanup_scheduled_datasets calls fetch_result outside the loop over the statement's deletion schedule"))
+                elif f_ is not f:
+                    rep.add(Finding("R13.8", f"R13.8/site/{f_.name}", f_.module.rel, c.lineno, f_.qualname,
+                                    f"{f_.name} calls fetch_result: only the scheduled release (cleanup_scheduled_datasets) and the final collection in execute_queries may"))
+    rep.floor("R13.8 fetch_result call sites", nfr, 2)
+    # premise: fetch_result really is not read-only
+    fr = P.func(f"{f.module.name}.fetch_result")
+    rep.instance("R13.8", "premise/fetch-rewrites-table", nontrivial=False, sample="apply_time_period_representation" in src(fr.node))
     rep.analysed = {"execute_queries_nodes": len(g.nodes), "sql_table_lifetime_sites": nsql, "selection_truth_table": table}
     rep.assumptions = ["normal-flow paths only for ordering (an exception aborts the run; its cleanup is C16)",
                        "the DAG's dependencies dict is filled in increasing statement number (single writer checked under R13.2)"]
